@@ -73,7 +73,7 @@ def native_oracle(witness, work, search_seed=None):
         # (b) background outside the feature
         rnd = random.Random(search_seed or 1)
         for i in range(40):
-            d = rnd.choice([0.0, 1.0, 5e3, 100e3, 660e3, 2890e3]) if i < 6 else rnd.uniform(1, 2890e3)
+            d = [0.0, 1.0, 5e3, 100e3, 660e3, 2890e3, -1.0, -1000.0, -25e3][i] if i < 9 else rnd.uniform(-50e3, 2890e3)
             st, v = q.ask('p3 -500e3 -500e3 %r %r 1,0,0 2,0,0 3,0,2 4,0,0 5,0,0' % (3000e3 - d, d))
             if st != 'OK':
                 continue
